@@ -2,7 +2,7 @@
    explicit damage steps); [step] runs one of them on the model state.  Also the textual front end
    (token lists in, one result line out) so that the OCaml driver is I/O glue only and the very same
    functions can be evaluated inside Coq by [vm_compute]. *)
-From CC Require Import Bytes Codec Utf8 Lines Json Sri Record Fs Prog Api.
+From CC Require Import Bytes Codec Utf8 Lines Json Sri Record Fs Prog Api Crash.
 Local Open Scope N_scope.
 
 Inductive byarg := ByKey (k : bytes) | ByHash (i : integrity).
@@ -168,6 +168,30 @@ Definition step (s : sstate) (o : op) (now : N) : outcome * sstate :=
                | Ext _ => update (s_fs s) l Dir end in
       (Res (Ok VUnit), mkS f (s_w s) (s_r s))
   | DSymlink l t => (Res (Ok VUnit), mkS (update (s_fs s) l (Symlink t)) (s_w s) (s_r s))
+  end.
+
+
+(* the trees a kill during operation [o] can leave behind (theories/Crash.v), from the session state [s] *)
+Definition step_crash (s : sstate) (o : op) (now : N) : list fs :=
+  let f := s_fs s in
+  match o with
+  | OWrite fl a key data => crash_states (write hash fl a key data now) f
+  | OWriteHash fl a data => crash_states (write_hash hash fl a data) f
+  | OOpen fl w key o => crash_states (open_writer fl key o) f
+  | OChunk w d => match hget w (s_w s) with Some ws => crash_states (write_chunk ws d) f | None => [f] end
+  | OCommit w => match hget w (s_w s) with Some ws => crash_states (commit hash ws now) f | None => [f] end
+  | ODrop w => match hget w (s_w s) with Some ws => crash_states (drop_writer ws) f | None => [f] end
+  | OInsert _ key o => crash_states (insert hash key o now) f
+  | ODelete _ key | ORemove _ key => crash_states (delete hash key now) f
+  | OExtract x _ checked b dst =>
+      match b with
+      | ByKey k => crash_states (extract hash x checked k (Ext dst)) f
+      | ByHash i => crash_states (extract_hash hash x checked i (Ext dst)) f
+      end
+  | ORemoveHash _ i => crash_states (remove_hash i) f
+  | ORemoveFully _ key => crash_states (remove_fully hash key) f
+  | OClear _ => crash_states clear f
+  | _ => [f]
   end.
 
 (* default timestamps are an oracle: op number i of a program sees the clock value [pseudo_now i] *)
